@@ -71,6 +71,9 @@ type LibFn struct {
 	Tmpl    string
 	Lits    map[int]string
 	Partial bool
+	// AnyArgs: the arguments are neither typed nor rendered (error constructors whose message does
+	// not matter); what they would evaluate — including a panic inside them — is not modelled.
+	AnyArgs bool
 }
 
 // StateVar is a mutable receiver field (or other assignable path): a parameter of the Lean function
@@ -114,6 +117,8 @@ type FnSpec struct {
 	Lean    string // Lean name of the generated definition
 	Doc     string
 	Binders string            // extra Lean binders, placed first, e.g. "(cb : Cb.Callback)"
+	// BinderArgs: the names bound by Binders, space separated (passed on to the auxiliary loop definitions)
+	BinderArgs string
 	Vals    map[string]Val    // expression key → Lean value (read-only receiver fields, abstracted terms)
 	Funcs   map[string]LibFn  // call key → Lean function (method calls, sibling functions)
 	State   []StateVar        // mutable fields
@@ -157,6 +162,8 @@ var bodyLib = map[string][]LibFn{
 	"bytes.Trim": {{Args: []string{"bytes", "bytes"}, Ret: []string{"bytes"}, Tmpl: "(Chan.trimSet %1 %0)"}},
 	// ASCII model of bytes.ToLower (ScrapliModel/Callbacks.lean)
 	"bytes.ToLower":  {{Args: []string{"bytes"}, Ret: []string{"bytes"}, Tmpl: "(Cb.fold %0)"}},
+	// model of strconv.Atoi for inputs short enough not to overflow (ScrapliModel/GoSem.lean)
+	"strconv.Atoi":   {{Args: []string{"bytes"}, Ret: []string{"int", "error"}, Tmpl: "(Go.atoi %0)"}},
 	"util.ByteIsAny": {{Args: []string{"byte", "bytes"}, Ret: []string{"bool"}, Tmpl: "(List.contains %1 %0)"}},
 }
 
@@ -253,6 +260,9 @@ type bodyTr struct {
 	fnResTy  string // Lean result type
 	consts   map[string]map[string]Val
 	synth    map[*ast.BadStmt]*ifNode // else-parts of a switch rewritten as an if-chain
+	hasFuel  bool                     // the function has a `for` loop with a condition: extra `fuel` parameter
+	loopN    int
+	aux      []string // auxiliary definitions (loop steps), innermost first
 }
 
 func (t *bodyTr) unsupported(kind string) string {
@@ -685,6 +695,13 @@ func (t *bodyTr) libFns(key string) []LibFn {
 // applyLib renders a table call; ok=false when no entry fits.
 func (t *bodyTr) applyLib(key string, args []ast.Expr, sc bscope, allowPartial bool) (Val, []string, bool) {
 	for _, f := range t.libFns(key) {
+		if f.AnyArgs {
+			ty := "unit"
+			if len(f.Ret) == 1 {
+				ty = f.Ret[0]
+			}
+			return Val{f.Tmpl, ty}, f.Ret, true
+		}
 		if len(f.Args) != len(args) || (f.Partial && !allowPartial) {
 			continue
 		}
@@ -1224,6 +1241,8 @@ func (t *bodyTr) seq(stmts []ast.Stmt, sc bscope, ctx bctx, ind string) string {
 		return t.ifNode(is, sc, ctx, ind, rest)
 	case *ast.RangeStmt:
 		return t.rangeStmt(x, sc, ctx, ind, rest)
+	case *ast.ForStmt:
+		return t.forStmt(x, sc, ctx, ind, rest)
 	case *ast.BadStmt:
 		if n, ok := t.synth[x]; ok {
 			return t.ifNode(n, sc, ctx, ind, rest)
@@ -1576,6 +1595,146 @@ func (t *bodyTr) switchToIf(x *ast.SwitchStmt, sc bscope) (*ifNode, bool) {
 }
 
 
+// varTy: translator type of a variable given by its Lean name
+func (t *bodyTr) varTy(lean string, sc bscope) string {
+	for _, s := range t.spec.State {
+		if s.Lean == lean {
+			return s.Ty
+		}
+	}
+	for e := sc.env; e != nil; e = e.parent {
+		if leanLocal(e.name) == lean {
+			return e.ty
+		}
+	}
+	return ""
+}
+
+// forStmt: `for init; cond; post { body }` and `for cond { body }` → `Go.forLoop step post fuel s`.
+// The step (condition test + body) and the post statement become auxiliary top-level definitions
+// `<fn>_loop<N>_step` / `_post` over the loop state (the variables the loop assigns); everything
+// else in scope is passed as parameters. `fuel` is a parameter of the generated function: running
+// out of it yields `none`, so `generated_<fn>_eq` must show that the fuel it assumes suffices.
+func (t *bodyTr) forStmt(x *ast.ForStmt, sc bscope, ctx bctx, ind string, rest func(bscope, string) string) string {
+	bad := func(kind string) string {
+		return ind + "let _ := " + t.unsupported(kind) + "\n" + rest(sc, ind)
+	}
+	if x.Cond == nil {
+		return bad("for_without_condition")
+	}
+	if x.Init != nil {
+		// the init variable lives in its own scope around the loop
+		as, ok := x.Init.(*ast.AssignStmt)
+		if !ok || as.Tok != token.DEFINE {
+			return bad("for_init")
+		}
+		y := *x
+		y.Init = nil
+		inner := ctx
+		inner.fall = func(isc bscope, ind string) string {
+			return t.forStmt(&y, isc, ctx, ind, func(_ bscope, ind string) string { return rest(sc, ind) })
+		}
+		return t.seq([]ast.Stmt{x.Init}, sc.push(), inner, ind)
+	}
+	t.loopN++
+	name := fmt.Sprintf("%s_loop%d", t.spec.Lean, t.loopN)
+	nodes := []ast.Node{x.Body}
+	if x.Post != nil {
+		nodes = append(nodes, x.Post)
+	}
+	vars := t.assigned(nodes, sc)
+	inVars := map[string]bool{}
+	var sigma []string
+	for _, v := range vars {
+		inVars[v] = true
+		sigma = append(sigma, leanTy(t.varTy(v, sc)))
+	}
+	sigmaTy := "Unit"
+	if len(sigma) > 0 {
+		sigmaTy = strings.Join(sigma, " × ")
+	}
+	// parameters of the auxiliary definitions: fuel, the FnSpec binders, state and locals not in the loop state
+	params := "(fuel : Nat)"
+	args := "fuel"
+	if t.spec.Binders != "" {
+		params += " " + t.spec.Binders
+		args += " " + t.spec.BinderArgs
+	}
+	for _, st := range t.spec.State {
+		if !inVars[st.Lean] {
+			params += fmt.Sprintf(" (%s : %s)", st.Lean, leanTy(st.Ty))
+			args += " " + st.Lean
+		}
+	}
+	var locals []*benv
+	seen := map[string]bool{}
+	for e := sc.env; e != nil; e = e.parent {
+		if !seen[e.name] && !inVars[leanLocal(e.name)] {
+			seen[e.name] = true
+			locals = append(locals, e)
+		}
+	}
+	for i := len(locals) - 1; i >= 0; i-- {
+		params += fmt.Sprintf(" (%s : %s)", leanLocal(locals[i].name), leanTy(locals[i].ty))
+		args += " " + leanLocal(locals[i].name)
+	}
+	lctx := bctx{
+		deferred: ctx.deferred,
+		retRaw:   func(r string) string { return ".ret " + paren(r) },
+		fall:     func(_ bscope, ind string) string { return ind + ".next " + tuple(vars) + "\n" },
+		brk:      func() string { return ".brk " + tuple(vars) },
+		cont:     func() string { return ".next " + tuple(vars) },
+	}
+	savedChecks, savedGuards := t.checks, t.guards
+	t.checks, t.guards = nil, nil
+	var d strings.Builder
+	fmt.Fprintf(&d, "/-- condition test and body of loop %d of `%s` -/\n", t.loopN, t.spec.Name)
+	fmt.Fprintf(&d, "def %s_step %s : %s → Go.Ctl (%s) (%s) := fun %s =>\n", name, params, parenTy(sigmaTy), sigmaTy, t.fnResTy, tuple(vars))
+	c := t.expr(x.Cond, sc, "bool")
+	if c.Ty != "bool" {
+		c.Lean = t.unsupported("condition")
+	}
+	d.WriteString(t.flush(lctx, "  "))
+	fmt.Fprintf(&d, "  if !%s then .brk %s else\n", c.Lean, tuple(vars))
+	body := t.seq(x.Body.List, sc.push().push(), lctx, "  ")
+	d.WriteString(body)
+	post := "id"
+	var pd strings.Builder
+	if x.Post != nil {
+		pctx := bctx{
+			retRaw: func(string) string { return t.unsupported("return_in_post") },
+			fall:   func(_ bscope, ind string) string { return ind + tuple(vars) + "\n" },
+		}
+		fmt.Fprintf(&pd, "/-- post statement of loop %d of `%s` -/\n", t.loopN, t.spec.Name)
+		fmt.Fprintf(&pd, "def %s_post %s : %s → %s := fun %s =>\n", name, params, parenTy(sigmaTy), parenTy(sigmaTy), tuple(vars))
+		if hasExit(x.Post) {
+			pd.WriteString("  " + t.unsupported("post_statement") + "\n")
+		} else {
+			pd.WriteString(t.seq([]ast.Stmt{x.Post}, sc.push().push(), pctx, "  "))
+		}
+		post = "(" + name + "_post " + args + ")"
+	}
+	t.checks, t.guards = savedChecks, savedGuards
+	if pd.Len() > 0 {
+		t.aux = append(t.aux, pd.String())
+	}
+	t.aux = append(t.aux, d.String())
+	var b strings.Builder
+	fmt.Fprintf(&b, "%smatch Go.forLoop (%s_step %s) %s fuel %s with\n", ind, name, args, post, tuple(vars))
+	fmt.Fprintf(&b, "%s| .ret loopRet => %s\n", ind, ctx.retRaw("loopRet"))
+	fmt.Fprintf(&b, "%s| .out => %s\n", ind, ctx.retRaw(t.panicVal()))
+	fmt.Fprintf(&b, "%s| .fin %s => (\n", ind, tuple(vars))
+	b.WriteString(strings.TrimRight(rest(sc, ind+"  "), "\n") + ")\n")
+	return b.String()
+}
+
+func parenTy(s string) string {
+	if strings.Contains(s, " ") {
+		return "(" + s + ")"
+	}
+	return s
+}
+
 func (t *bodyTr) rangeStmt(x *ast.RangeStmt, sc bscope, ctx bctx, ind string, rest func(bscope, string) string) string {
 	bad := func(kind string) string {
 		return ind + "let _ := " + t.unsupported(kind) + "\n" + rest(sc, ind)
@@ -1686,10 +1845,13 @@ func GenBody(spec *FnSpec) string {
 	if spec.Recv != "" {
 		where = spec.Dir + ": (*" + spec.Recv + ")." + spec.Name
 	}
-	fmt.Fprintf(&b, "/-- `%s` as the source reads now. %s -/\n", where, spec.Doc)
+	doc := func(extra string) string {
+		return fmt.Sprintf("/-- `%s` as the source reads now. %s%s -/\n", where, spec.Doc, extra)
+	}
+	b.WriteString("@@DOC@@")
 	if fd == nil {
 		fmt.Fprintf(&b, "def %s : Unit := unsupported_function_not_found\n", spec.Lean)
-		return b.String()
+		return strings.Replace(b.String(), "@@DOC@@", doc(""), 1)
 	}
 	t := &bodyTr{spec: spec, imports: map[string]string{}, reserved: map[string]bool{}, synth: map[*ast.BadStmt]*ifNode{}}
 	for _, im := range file.Imports {
@@ -1727,6 +1889,9 @@ func GenBody(spec *FnSpec) string {
 	// may it panic?
 	ast.Inspect(fd.Body, func(m ast.Node) bool {
 		switch x := m.(type) {
+		case *ast.ForStmt:
+			t.mayPanic = true
+			t.hasFuel = true
 		case *ast.IndexExpr, *ast.SliceExpr:
 			t.mayPanic = true
 		case *ast.CallExpr:
@@ -1743,6 +1908,10 @@ func GenBody(spec *FnSpec) string {
 	})
 	sc := bscope{}
 	var binders []string
+	if t.hasFuel {
+		binders = append(binders, "(fuel : Nat)")
+		t.reserved["fuel"] = true
+	}
 	if spec.Binders != "" {
 		binders = append(binders, spec.Binders)
 	}
@@ -1808,7 +1977,13 @@ func GenBody(spec *FnSpec) string {
 		},
 	}
 	b.WriteString(t.seq(fd.Body.List, sc.push(), ctx, "  "))
-	return b.String()
+	// auxiliary loop definitions come first (innermost first)
+	extra := ""
+	if t.hasFuel {
+		extra = " `fuel` bounds the iterations of every `for` loop (`none` when it runs out)."
+	}
+	return strings.Join(t.aux, "\n") + map[bool]string{true: "\n", false: ""}[len(t.aux) > 0] +
+		strings.Replace(b.String(), "@@DOC@@", doc(extra), 1)
 }
 
 // GenBodies renders one generated file.
